@@ -5,6 +5,7 @@ import TantivyModel.Proofs.WandMachine
 import TantivyModel.Proofs.Bm25Q
 import TantivyModel.Proofs.BlockWandMain
 import TantivyModel.Proofs.BlockWandInter
+import TantivyModel.Proofs.LexOrder
 /-!
 # C06 — Top-K collection returns exactly the best K, with deterministic ties
 
@@ -144,6 +145,16 @@ theorem C06_merge_offset (gt : α → α → Bool) (hgt : StrictWeak gt) (K O : 
       intro X; rw [drop_take]; congr 1; omega
     unfold topK
     rw [e, e, takeN_isort_flatten hgt (O + K) hfr hndf hnd]
+
+/-- Tuple sort keys (`TopDocs::order_by((k1, k2, …))`, any nesting, any order per component): the
+comparator of a pair is `c1.compare(..).then_with(|| c2.compare(..))` (`lexGt`), 3- and 4-tuples
+are chains of pairs; if the components' comparators are strict weak orders so is the tuple's,
+hence every theorem of this file applies to tuple keys. (That the collector really USES the
+components' comparators is the harness's business: the 4-tuple implementation does not forward
+`comparator()` — known finding `C06:four-tuple-sort-key-ignores-orders`.) -/
+theorem C06_tuple_key_strictWeak {β : Type} (g₁ : α → α → Bool) (g₂ : β → β → Bool)
+    (h₁ : StrictWeak g₁) (h₂ : StrictWeak g₂) : StrictWeak (lexGt g₁ g₂) :=
+  h₁.lex h₂
 
 /-- associativity of the merge: the best N of a union only depend on the best N of each part,
 whatever the grouping (segments, threads). -/
